@@ -75,7 +75,7 @@ PROPS["C14"] = dict(
 
 PROPS["C11"] = dict(
     claim=dict(
-        text="Machine-checked proof (Coq 8.16): formatPath (transcribed with its index accesses as explicit panic outcomes) equals, for every string and both StrictLastSlash settings, '/' ++ core(s) (C11_normal_form) - hence it is total (C11_total), registration through simpleFmtPath and group prefixes normalises exactly like lookup (C11_reg_lookup, C11_registered_path for every nesting of prefixes), two spellings reach the same key iff they have the same core (C11_classes, C11_reach) and the normal form has the documented shape (C11_shape). End to end (SysEnd.v): any router looks a request up through the normal form of its path only - two spellings with the same normal form get the same answer and leave the same router, cache included, behind; so on every router built by a registration program after any history (C11_lookup_by_normal_form, C11_end_to_end). Tie to the code: extracted model and closed-form spec are compared with Route.Path(), Router.Match and ServeHTTP (decoded and escaped path) on generated and, in the thorough tier, exhaustively enumerated short strings.",
+        text="Machine-checked proof (Coq 8.16): formatPath (transcribed with its index accesses as explicit panic outcomes) equals, for every string and both StrictLastSlash settings, '/' ++ core(s) (C11_normal_form) - hence it is total (C11_total), registration through simpleFmtPath and group prefixes normalises exactly like lookup (C11_reg_lookup, C11_registered_path for every nesting of prefixes), two spellings reach the same key iff they have the same core (C11_classes, C11_reach) and the normal form has the documented shape (C11_shape). End to end (SysEnd.v): any router looks a request up through the normal form of its path only - two spellings with the same normal form get the same answer and leave the same router, cache included, behind; so on every router built by a registration program after any history (C11_lookup_by_normal_form, C11_end_to_end). Tie to the code: extracted model and closed-form spec are compared with Route.Path(), Router.Match and ServeHTTP (decoded and escaped path) on generated and, in the thorough tier, exhaustively enumerated short strings - static and dynamic routes, cold and with the route cache warmed by the canonical spelling (every lookup repeated).",
         note="Trusted: Coq kernel, extraction, driver, harness; strings.TrimSpace/TrimLeft/TrimRight are modelled on code points (unicode.IsSpace set transcribed), URL decoding is net/url's (an input to the model).",
         technique="Coq proof: closed-form characterisation of the normaliser for all strings; extracted model vs implementation differential check"),
     n=dict(quick=10000, thorough=100000),
